@@ -13,8 +13,8 @@ package main
 // Property: the process survives, the re-using call keeps its item and pending count and is
 // ended exactly once (by its timeout).  On a tree where finishRelayItem deletes by id alone the
 // live item of the new call is deleted and the release of its active timer is the Go panic
-// "only stopped or completed timers can be released" on the reader goroutine: verdict
-// [c09:stale-finish-deletes-live-item].
+// "only stopped or completed timers can be released" on the reader goroutine (finding
+// c09:stale-finish-deletes-live-item, fixed: relayItems.deleteCall); a recurrence is a violation.
 
 import (
 	"bytes"
@@ -63,7 +63,7 @@ func engineRelayStale(rng *rand.Rand, n int, tier string, o *Out) {
 		nontrivial := true
 		switch {
 		case strings.Contains(txt, "panic: "+rstPanic):
-			verdict = "[c09:stale-finish-deletes-live-item] the relay process died: panic \"" + rstPanic + "\" in finishRelayItem on the reader of the destination connection: " +
+			verdict = "the relay process died: panic \"" + rstPanic + "\" in finishRelayItem on the reader of the destination connection: " +
 				"it had looked the originating item of call req id X up for the final call res (relay.Receive.afterGet), the caller's cancel X was relayed (items deleted, End) and id X re-used (admitted, live item, armed timer); " +
 				"the parked reader then deleted the LIVE item of the new call by id and released its active timer"
 			o.Hist("child-panicked")
